@@ -60,6 +60,7 @@ func runC20(r *Run) {
 	t := r.Tape
 	nConns := 1 + t.Draw(6)
 	concurrent := t.Pct(25) // run pairs of connections concurrently
+	r.DrawYields()
 	r.S.MaxSim = 10 * time.Minute
 	r.S.MaxSteps = 60000
 	r.S.Stick = []int{0, 60}[t.Draw(2)]
